@@ -141,7 +141,7 @@ theorem bpRun_rule (solve : Solver) (cols0 : List Pat) (d : List Nat) (eps gapTo
         (if decide ((solve cols0 []).iters < maxIter) = true then (obj - eps).ceil else 0) maxNodes stop
         (2 * maxNodes + 2)
         ⟨(solve cols0 []).cols, [(obj, 0, [])], 1,
-          roundSolution (solve cols0 []).xs (solve cols0 []).cols d eps, 0, false⟩ = res at ho
+          roundSolution (solve cols0 []).xs (solve cols0 []).cols d eps, 0, false, 0⟩ = res at ho
       obtain ⟨st, early⟩ := res
       dsimp only at ho
       cases early with
